@@ -236,6 +236,25 @@ func IsValidBucketName(bucket string, debug bool) bool {
 	return true
 }
 
+// IsObjectNameValid reports whether an object key can be mapped onto the
+// backing store without leaving its bucket: "." and ".." path segments are
+// never resolved, so keys containing them are not accepted.
+func IsObjectNameValid(name string) bool {
+	for _, seg := range strings.Split(name, "/") {
+		if seg == "." || seg == ".." {
+			return false
+		}
+	}
+	return !strings.Contains(name, "\x00")
+}
+
+// IsPathComponentValid reports whether an identifier supplied by the client
+// (version id, upload id) is a single path component. The backends use these
+// values as file names.
+func IsPathComponentValid(id string) bool {
+	return id != "." && id != ".." && !strings.ContainsAny(id, "/\x00")
+}
+
 func includeHeader(hdr string, signedHdrs []string) bool {
 	for _, shdr := range signedHdrs {
 		if strings.EqualFold(hdr, shdr) {
